@@ -109,6 +109,21 @@ def run(ctx):
                 from bluebonnet.fluids import gas as gas_
                 compare("Fluid.gas_FVF", lambda a: fl.gas_FVF(a, tpc_g, ppc_g), lambda x: gas_.b_factor_DAK(T, x, tpc_g, ppc_g), arr, label, dict(**params, Tpc=tpc_g, Ppc=ppc_g))
                 compare("Fluid.gas_viscosity", lambda a: fl.gas_viscosity(a, tpc_g, ppc_g), lambda x: gas_.viscosity_Sutton(T, x, tpc_g, ppc_g, gg), arr, label, dict(**params, Tpc=tpc_g, Ppc=ppc_g))
+        # two-dimensional arrays whose memory order is not their logical order (a transposed view, a Fortran-ordered array, the block of
+        # a multi-column DataFrame, a broadcast row): shape AND layout together - every entry is still the value of ITS pressure
+        if k < (3 if ctx.quick else 30):
+            forms2 = [f_ for f_ in dom.VECTOR_FORMS if "2-D" in f_[0]]
+            pe = [float(x) for x in ints[: len(ints) - len(ints) % 2]]
+
+            def rep2(what, inp_, obs, want_=None):
+                bad(what, inp_, dict(observed=obs, expected=want_))
+            if len(pe) >= 4:
+                sal2 = float(rng.uniform(0, 25))
+                fl2 = Fluid(T, api, gg, rsi, sal2, 0.1)
+                for nm2, f2 in (("oil.b_o_Standing", lambda q: oil.b_o_Standing(T, q, api, gg, rsi)), ("oil.solution_gor_Standing", lambda q: oil.solution_gor_Standing(T, q, api, gg, rsi)),
+                                ("oil.density_Standing", lambda q: oil.density_Standing(T, q, api, gg, rsi)), ("water.b_water_McCain", lambda q: water.b_water_McCain(T, q)),
+                                ("water.density_water_McCain", lambda q: water.density_water_McCain(T, q, sal2)), ("Fluid.oil_FVF", fl2.oil_FVF)):
+                    ev += dom.check_vector_forms(f2, pe, rep2, nm2, dict(function=nm2, **params), forms=forms2)
         # long arrays (a pressure field of a fine simulation, hourly gauge data): every entry is its own correlation value, whatever
         # the length of the array
         if k < (1 if ctx.quick else 4):
